@@ -14,6 +14,7 @@
     `sliceSpec pl closed vs`          the specification (function), `OpenSlice` / `ClosedSlice` the specification (relation)
 -/
 import PW.Model.SliceByPlane
+import PW.Gen.PolySlice
 import PW.Lemmas.Vec
 import PW.Lemmas.SliceByPlane
 import Mathlib.Tactic.Ring
@@ -507,5 +508,163 @@ example :
       rfl
   rw [C06_spec, key]
   rfl
+
+/-! ## what the model takes from the source
+
+`harness/translate/c06.py` reads the sign tests, index offsets, NaN rules and refusal conditions of
+`slice_open_polyline_by_plane`, of the closed branch of `Polyline.sliced_by_plane` and of
+`intersect_segment_with_plane` out of the source text into `PW/Gen/PolySlice.lean` on every run (local names replaced
+by what they were assigned; the large sub-expressions abbreviated by the structural labels SIGNS, TP, COMPONENTS,
+CSIGNS, CIF, C, FRONT, VIF, VNF, ROLL, ROLLED, WORKING, T).  The theorems below state that each generated value is the
+one the hand-written model `PW/Model/SliceByPlane.lean` was written from — and, where the literal is a Lean literal of
+the model, that the model computes with exactly the generated value — so that an edit of one of them in the source
+breaks a proof obligation here. -/
+
+/-- the sign tests: transitions are `signs[:-1] != signs[1:]`, a component is in front when its sign `== 1`:
+    the model's `transitionPoints` and `isFront` are these generated operators. -/
+theorem gen_sign_tests :
+    PW.Gen.PolySlice.signsSrc = "np.sign(plane.signed_distance(vertices))" ∧
+    PW.Gen.PolySlice.transitionCmp = .ne ∧ PW.Gen.PolySlice.transitionOperands = ["SIGNS[1:]", "SIGNS[:-1]"] ∧
+    PW.Gen.PolySlice.frontCmp = .eq ∧ PW.Gen.PolySlice.frontSign = 1 ∧
+    (∀ signs : List Int, transitionPoints signs =
+      nonzeroFrom 0 (List.zipWith (fun a b => PW.Gen.PolySlice.transitionCmp.test a b) signs signs.tail)) ∧
+    (∀ {α : Type} (sg : α → Int) (a : α),
+      isFront sg a = PW.Gen.PolySlice.frontCmp.test (sg a) PW.Gen.PolySlice.frontSign) := by
+  refine ⟨rfl, by decide, by decide, by decide, by decide, ?_, ?_⟩
+  · intro signs
+    have h : (fun a b : Int => PW.Gen.PolySlice.transitionCmp.test a b) = (fun a b => a != b) := by
+      funext a b
+      rw [Bool.eq_iff_iff]
+      simp [PW.Gen.Cmp.test, PW.Gen.PolySlice.transitionCmp]
+    rw [h]
+    rfl
+  · intro α sg a
+    rw [Bool.eq_iff_iff]
+    simp [isFront, PW.Gen.Cmp.test, PW.Gen.PolySlice.frontCmp, PW.Gen.PolySlice.frontSign]
+
+/-- the index offsets: the polyline is split at `transition_points + 1`, the sign of a component is read at `0` and at
+    `transition_points + 1` (the model's `cuts = (transitionPoints signs).map (· + 1)`, `componentSigns` over `0 :: cuts`). -/
+theorem gen_cut_offsets :
+    PW.Gen.PolySlice.splitCoef = 1 ∧ PW.Gen.PolySlice.splitOffset = 1 ∧ PW.Gen.PolySlice.signIndexFirst = 0 ∧
+    PW.Gen.PolySlice.signIndexCoef = 1 ∧ PW.Gen.PolySlice.signIndexOffset = 1 ∧
+    PW.Gen.PolySlice.sameTransitionPoints = true := by decide
+
+/-- the refusals, in the code's order: no vertices (`num_v == 0`); `len(components_in_front) == 0`; `> 1`;
+    `len(components) < 2` — all `ValueError` (the model's `vs.length = 0`, and its match on `[]`, `_ :: _ :: _`,
+    `components.length < 2`). -/
+theorem gen_refusals :
+    (PW.Gen.PolySlice.emptyCmp = .eq ∧ PW.Gen.PolySlice.emptyRhs = 0 ∧ PW.Gen.PolySlice.emptyRaises = "ValueError") ∧
+    (PW.Gen.PolySlice.noneInFrontCmp = .eq ∧ PW.Gen.PolySlice.noneInFrontRhs = 0 ∧ PW.Gen.PolySlice.noneInFrontOf = "CIF") ∧
+    (PW.Gen.PolySlice.tooManyCmp = .gt ∧ PW.Gen.PolySlice.tooManyRhs = 1 ∧ PW.Gen.PolySlice.tooManyOf = "CIF") ∧
+    (PW.Gen.PolySlice.allInFrontCmp = .lt ∧ PW.Gen.PolySlice.allInFrontRhs = 2 ∧
+      PW.Gen.PolySlice.allInFrontOf = "COMPONENTS") ∧
+    PW.Gen.PolySlice.sameComponentsInFront = true ∧
+    PW.Gen.PolySlice.refusalRaises = ["ValueError", "ValueError", "ValueError"] := by
+  refine ⟨⟨by decide, by decide, rfl⟩, ⟨by decide, by decide, rfl⟩, ⟨by decide, by decide, rfl⟩,
+    ⟨by decide, by decide, rfl⟩, by decide, by decide⟩
+
+/-- the kept run and the rows put before / after it (`> 0`, `- 1`, `[-1]`, `== 0`, `+ 1 <`, `[0]`, and the arguments
+    of the two calls of the local crossing helper, CROSSING): the `prepend` / `append` blocks of the model's
+    `sliceOpenRunsG`. -/
+theorem gen_run_ends :
+    PW.Gen.PolySlice.runSrc = "COMPONENTS[C]" ∧ PW.Gen.PolySlice.runIsTheOneInFront = true ∧
+    PW.Gen.PolySlice.prependSrc =
+      "(COMPONENTS[C - 1][-1] if CSIGNS[C - 1] == 0 else CROSSING(COMPONENTS[C - 1][-1], FRONT[0])) if C > 0 else np.zeros((0, 3))" ∧
+    PW.Gen.PolySlice.appendSrc =
+      "(COMPONENTS[C + 1][0] if CSIGNS[C + 1] == 0 else CROSSING(FRONT[-1], COMPONENTS[C + 1][0])) if C + 1 < len(COMPONENTS) else np.zeros((0, 3))" :=
+  ⟨rfl, rfl, rfl, rfl⟩
+
+/-- the local helper `intersection_with_plane(start, end)`: `(d_s, d_e) = plane.signed_distance([start, end])`,
+    `start + d_s / (d_s - d_e) * (end - start)`: the model's `crossing` divides by exactly the generated combination
+    of the two signed distances. -/
+theorem gen_crossing :
+    PW.Gen.PolySlice.crossingDistancesSrc = "plane.signed_distance(np.array([START, END]))" ∧
+    PW.Gen.PolySlice.crossingSrc = "(END - START) * (D_START / (D_START - D_END)) + START" ∧
+    PW.Gen.PolySlice.crossingNumeratorIsStart = true ∧ PW.Gen.PolySlice.crossingDenStartCoef = 1 ∧
+    PW.Gen.PolySlice.crossingDenEndCoef = -1 ∧
+    ∀ (pl : Plane K) (a b : V3 K), crossing pl a b =
+      a + V3.smul (pl.signedDistance a /
+        (((PW.Gen.PolySlice.crossingDenStartCoef : Int) : K) * pl.signedDistance a +
+         ((PW.Gen.PolySlice.crossingDenEndCoef : Int) : K) * pl.signedDistance b)) (b - a) := by
+  refine ⟨rfl, rfl, by decide, by decide, by decide, ?_⟩
+  intro pl a b
+  have h : ((PW.Gen.PolySlice.crossingDenStartCoef : Int) : K) * pl.signedDistance a +
+      ((PW.Gen.PolySlice.crossingDenEndCoef : Int) : K) * pl.signedDistance b =
+      pl.signedDistance a - pl.signedDistance b := by
+    simp only [PW.Gen.PolySlice.crossingDenStartCoef, PW.Gen.PolySlice.crossingDenEndCoef]
+    push_cast
+    ring
+  rw [h]
+  rfl
+
+/-- the roll of the closed branch: `-vertices_not_in_front[-1]` when the last vertex is in front (`== 1`, set `!= 1`),
+    `-vertices_in_front[0] + 1` otherwise (set `== 1`), `0` when the set is empty: the model's `closedRoll` computes with
+    exactly the generated operators, coefficients and offsets. -/
+theorem gen_closed_roll :
+    (PW.Gen.PolySlice.lastFrontCmp = .eq ∧ PW.Gen.PolySlice.lastFrontLhs = "SIGNS[-1]" ∧
+      PW.Gen.PolySlice.rollBackIndex = -1 ∧ PW.Gen.PolySlice.rollFrontIndex = 0 ∧
+      PW.Gen.PolySlice.rollBackLenCmp = .gt ∧ PW.Gen.PolySlice.rollBackLenRhs = 0 ∧
+      PW.Gen.PolySlice.rollFrontLenCmp = .gt ∧ PW.Gen.PolySlice.rollFrontLenRhs = 0 ∧
+      PW.Gen.PolySlice.rollBackConsistent = true ∧ PW.Gen.PolySlice.rollFrontConsistent = true) ∧
+    PW.Gen.PolySlice.rollSrc =
+      "(-VNF[-1] if len(VNF) > 0 else 0) if SIGNS[-1] == 1 else -VIF[0] + 1 if len(VIF) > 0 else 0" ∧
+    ∀ signs : List Int, closedRoll signs =
+      if signs.getLast? == some PW.Gen.PolySlice.lastFrontRhs then
+        match lastTrue? (signs.map fun s => PW.Gen.PolySlice.rollBackSetCmp.test s PW.Gen.PolySlice.rollBackSetRhs) with
+        | some k => PW.Gen.PolySlice.rollBackCoef * (k : Int) + PW.Gen.PolySlice.rollBackOffset
+        | none => PW.Gen.PolySlice.rollBackElse
+      else
+        match firstTrue? (signs.map fun s => PW.Gen.PolySlice.rollFrontSetCmp.test s PW.Gen.PolySlice.rollFrontSetRhs) with
+        | some f => PW.Gen.PolySlice.rollFrontCoef * (f : Int) + PW.Gen.PolySlice.rollFrontOffset
+        | none => PW.Gen.PolySlice.rollFrontElse := by
+  refine ⟨by decide, rfl, ?_⟩
+  intro signs
+  have h1 : (fun s : Int => PW.Gen.PolySlice.rollBackSetCmp.test s PW.Gen.PolySlice.rollBackSetRhs) = (· != 1) := by
+    funext s
+    rw [Bool.eq_iff_iff]
+    simp [PW.Gen.Cmp.test, PW.Gen.PolySlice.rollBackSetCmp, PW.Gen.PolySlice.rollBackSetRhs]
+  have h2 : (fun s : Int => PW.Gen.PolySlice.rollFrontSetCmp.test s PW.Gen.PolySlice.rollFrontSetRhs) = (· == 1) := by
+    funext s
+    rw [Bool.eq_iff_iff]
+    simp [PW.Gen.Cmp.test, PW.Gen.PolySlice.rollFrontSetCmp, PW.Gen.PolySlice.rollFrontSetRhs]
+  rw [h1, h2]
+  unfold closedRoll
+  simp only [PW.Gen.PolySlice.lastFrontRhs, PW.Gen.PolySlice.rollBackCoef, PW.Gen.PolySlice.rollBackOffset,
+    PW.Gen.PolySlice.rollBackElse, PW.Gen.PolySlice.rollFrontCoef, PW.Gen.PolySlice.rollFrontOffset,
+    PW.Gen.PolySlice.rollFrontElse, neg_one_mul, add_zero]
+  rfl
+
+/-- what the closed branch hands to the open slicer: `np.roll(self.v, roll, axis=0)` with its first row repeated at the
+    end, when `self.is_closed and self.num_v > 1`; the result is an open `Polyline` (the model's `workingVertices`,
+    `slicedByPlaneG`). -/
+theorem gen_working_vertices :
+    PW.Gen.PolySlice.closedSignsSrc = "np.sign(plane.signed_distance(self.v))" ∧
+    PW.Gen.PolySlice.rolledSrc = "np.roll(self.v, ROLL, axis=0)" ∧
+    PW.Gen.PolySlice.workingSrc = "np.vstack([ROLLED, ROLLED[:1]]) if self.is_closed and self.num_v > 1 else self.v" ∧
+    PW.Gen.PolySlice.closedGuardSrc = "self.is_closed and self.num_v > 1" ∧
+    PW.Gen.PolySlice.resultSrc = "Polyline(is_closed=False, v=slice_open_polyline_by_plane(WORKING, plane))" :=
+  ⟨rfl, rfl, rfl, rfl, rfl⟩
+
+/-- `intersect_segment_with_plane`: `T = nan_to_num(dot(q − start, n) / dot(vec, n))`, point `start + T * vec`, row set
+    to NaN when `T < 0` or `T > 1`: for a non-zero denominator the model's `intersectSegmentWithPlane` is exactly this
+    with the generated operators and bounds. -/
+theorem gen_nan_rules :
+    (PW.Gen.PolySlice.nanLowCmp = .lt ∧ PW.Gen.PolySlice.nanLowRhs = 0 ∧ PW.Gen.PolySlice.nanHighCmp = .gt ∧
+      PW.Gen.PolySlice.nanHighRhs = 1 ∧ PW.Gen.PolySlice.nanRulesOk = true) ∧
+    PW.Gen.PolySlice.paramSrc =
+      "np.nan_to_num(vg.dot(points_on_plane - start_points, plane_normals) / vg.dot(segment_vectors, plane_normals))" ∧
+    PW.Gen.PolySlice.pointSrc = "T.reshape(-1, 1) * segment_vectors + start_points" ∧
+    ∀ (start segv ref n : V3 K), segv.dot n ≠ 0 →
+      intersectSegmentWithPlane start segv ref n =
+        if PW.Gen.PolySlice.nanLowCmp.test ((ref - start).dot n / segv.dot n) ((PW.Gen.PolySlice.nanLowRhs : Int) : K) ||
+            PW.Gen.PolySlice.nanHighCmp.test ((ref - start).dot n / segv.dot n) ((PW.Gen.PolySlice.nanHighRhs : Int) : K)
+        then none else some (start + V3.smul ((ref - start).dot n / segv.dot n) segv) := by
+  refine ⟨by decide, rfl, rfl, ?_⟩
+  intro start segv ref n h
+  unfold intersectSegmentWithPlane
+  have hden : segv.dot n < 0 ∨ 0 < segv.dot n := lt_or_gt_of_ne h
+  simp only [if_pos hden]
+  simp [PW.Gen.Cmp.test, PW.Gen.PolySlice.nanLowCmp, PW.Gen.PolySlice.nanLowRhs, PW.Gen.PolySlice.nanHighCmp,
+    PW.Gen.PolySlice.nanHighRhs]
 
 end PW.C06
